@@ -18,7 +18,10 @@ CONSTANTS
   DevWriteLock = TRUE
   DevRouteFirst = FALSE
   DevCleanupFirst = FALSE
-  DevLegRegistered = FALSE
+  RegLegs = {}
+  DevIdleSweep = FALSE
+  DevFwdNoEof = FALSE
+  SrcKinds = {"direct"}
   DevBufio = FALSE
   AttachKinds = {"local"}
   HoldOn = FALSE
